@@ -148,7 +148,7 @@ def logo_deck(u: dict) -> bytes:
 
 
 class Run:
-    def __init__(self, U, scratch: str, nimg: int, logo: int = 0):
+    def __init__(self, U, scratch: str, nimg: int, logo: int = 0, npre: int = 0):
         import pptx
         self.pptx = pptx
         self.U = U
@@ -159,6 +159,12 @@ class Run:
         self.prs = pptx.Presentation(io.BytesIO(logo_deck(U[logo - 1]))) if logo else pptx.Presentation()
         self.prs.slides.add_slide(self.prs.slide_layouts[6])
         self.prs.slides.add_slide(self.prs.slide_layouts[6])
+        if npre:        # the deck as opened already shows the images 1..npre (second slide), stored as image1 .. image<npre>
+            for i in range(npre):
+                self.prs.slides[1].shapes.add_picture(io.BytesIO(U[i]["bytes"]), 1000 * i, 2000 * i)
+            b = io.BytesIO()
+            self.prs.save(b)
+            self.prs = pptx.Presentation(io.BytesIO(b.getvalue()))
         self.pics = []
         self.refs = []            # (slide position, shape id) of every recorded picture, to re-read what it shows now
         self.last_raw = None
@@ -274,8 +280,8 @@ class Run:
         return {"media": sorted(media, key=lambda m: m["name"]), "pics": self._pics_now(), "dup": "<<duplicate-member>>" in members}
 
 
-def run_history(hid, h, U, scratch, nimg, logo=0):
-    run = Run(U, scratch, nimg, logo)
+def run_history(hid, h, U, scratch, nimg, logo=0, npre=0):
+    run = Run(U, scratch, nimg, logo, npre)
     steps, saved = [], []
     init = run.observe()
 
